@@ -135,7 +135,8 @@ func Harness_C20_ReorderBuffer() {
 }
 
 // Harness_C20_ReorderFetcher: N items are added by a producer while the time-out flusher is
-// live and the timer may expire after any Add; fetches complete in any order; every
+// live, the timer may expire after any Add and Flush may be called after any Add (also when
+// nothing is batched); fetches complete in any order; every
 // interleaving at synchronisation points is explored. The output channel must carry one
 // result per input, in input order.
 func Harness_C20_ReorderFetcher() {
@@ -171,6 +172,9 @@ func Harness_C20_ReorderFetcher() {
 	}()
 	for i := 0; i < n; i++ {
 		rf.Add(ctx, i)
+		if verif.Param("FLUSHES", 1) == 1 && verif.Choose("explicit-flush", 2) == 1 {
+			rf.Flush(ctx) // may find the batcher empty (a size-triggered flush took the batch)
+		}
 		if timer.do != nil && verif.Choose("timer-fires", 2) == 1 {
 			cb := timer.do
 			timer.do = nil
